@@ -99,14 +99,19 @@ NextQuick == \/ PickA({1, 4, 7, 8, 12, 16, 31, 32, 64}, {-1, 3, 4, 7}, {-1, 2}) 
              \/ Evaluate
 NextThorough == \/ PickA({1, 2, 3, 4, 5, 7, 8, 9, 12, 15, 16, 17, 24, 30, 31, 32, 33, 48, 63, 64}, {-1, 0, 1, 2, 3, 4, 5, 6, 7}, {-1, 0, 2})
                 \/ PickA2 \/ PickB \/ PickC1 \/ PickC2 \/ PickC3 \/ Evaluate
+\* C04: the same shapes with the wrong values
+NextC04Quick == \/ PickA({1, 3, 4, 7, 8, 16, 32, 64}, {-1, 3}, {-1}) \/ PickA2 \/ PickB \/ PickC1 \/ Evaluate
+NextC04Thorough == \/ PickA({1, 2, 3, 4, 5, 6, 7, 8, 12, 16, 31, 32, 33, 63, 64}, {-1, 0, 3, 7}, {-1, 2}) \/ PickA2 \/ PickB \/ PickC1 \/ PickC2 \/ Evaluate
+SpecC04Quick == Init /\ [][NextC04Quick]_vars
+SpecC04Thorough == Init /\ [][NextC04Thorough]_vars
 SpecQuick == Init /\ [][NextQuick]_vars
 SpecThorough == Init /\ [][NextThorough]_vars
 
 \* debugging aid: print the cases that break a design-level invariant
-Bad(c) == ~c.rt \/ (~c.err /\ ~c.ovl /\ ~HasDem(desc.ps) /\ c.dhi # Len(c.pdu)) \/ ~c.clean
+BadCase(c) == ~c.rt \/ (~c.err /\ ~c.ovl /\ ~HasDem(desc.ps) /\ c.dhi # Len(c.pdu)) \/ ~c.clean
           \/ (~c.err /\ MsgStaticBits(desc.ps) >= 0 /\ 8 * Len(c.pdu) # MsgStaticBits(desc.ps))
           \/ (~c.err /\ ~c.ovl /\ ~IsPrefixOf(ConstPrefix(desc.ps, desc.rq), c.pdu))
-DebugBad == Done => \A c \in Cases(desc) : Bad(c) => PrintT(ToJson([bad |-> c, ps |-> desc.ps]))
+DebugBad == Done => \A c \in Cases(desc) : BadCase(c) => PrintT(ToJson([bad |-> c, ps |-> desc.ps]))
 
 Emit == Done => PrintT(ToJson([ps |-> desc.ps, rq |-> desc.rq,
                                static |-> [bits |-> MsgStaticBits(desc.ps), prefix |-> ConstPrefix(desc.ps, desc.rq),
